@@ -55,6 +55,24 @@ MK = {"NativeInt": "int()", "Float": "flt()", "Double": "dbl()"}
 MK_EXACT = {"NativeInt": "small_int()", "Float": "flt()", "Double": "dbl()"}
 
 
+REP = r'''
+    /// integers beyond 64 bits against every native integer: sign and magnitude decide, whatever the native value
+    #[kani::proof]
+    #[kani::unwind(8)]
+    fn c14_rep_bigint_vs_native() {
+        let neg = SparqlNumber::BigInt(num_bigint::BigInt::from(-100000000000000000000000i128));
+        let pos = SparqlNumber::BigInt(num_bigint::BigInt::from(100000000000000000000000i128));
+        let n = int();
+        assert!(cmp(&neg, &n) == Some(Ordering::Less));
+        assert!(cmp(&n, &neg) == Some(Ordering::Greater));
+        assert!(cmp(&pos, &n) == Some(Ordering::Greater));
+        assert!(cmp(&n, &pos) == Some(Ordering::Less));
+        assert!(cmp(&neg, &pos) == Some(Ordering::Less));
+        assert!(cmp(&neg, &neg) == Some(Ordering::Equal));
+    }
+'''
+
+
 def triples():
     return [(a, b, c) for a in KINDS for b in KINDS for c in KINDS]
 
@@ -74,4 +92,4 @@ def generate():
             n = name("c14_exact", t)
             exact.append(n)
             body.append("\n    #[kani::proof]\n    fn %s() {\n        check(%s, %s, %s);\n    }\n" % (n, MK_EXACT[t[0]], MK_EXACT[t[1]], MK_EXACT[t[2]]))
-    return full, exact, HEADER + "".join(body) + "}\n"
+    return full, exact, HEADER + "".join(body) + REP + "}\n"
